@@ -2,8 +2,7 @@
 """Regenerate MANIFEST.json from the table below (kept in one place so it is always valid)."""
 import json, subprocess
 
-BASELINE_OFF = ("cd /repo && cargo nextest run --workspace --no-fail-fast --tool-config-file pb:/w/lib/nextest.toml "
-                "--profile pb --test-threads 8 --offline || cargo test --workspace --no-fail-fast --offline")
+BASELINE_OFF = "cd /repo/$(cat /w/out/cargo_root.txt) && cargo nextest run --workspace --no-fail-fast --tool-config-file pb:/w/lib/nextest.toml --profile pb --test-threads 8 --offline  (fallback: cargo test --workspace --no-fail-fast --offline)"
 
 # id -> (level category, technique, level text, level note, design ref)
 CLAIMED = {
